@@ -1,18 +1,17 @@
 /-
   C09 — counting commands agree with enumerating commands (BITMAP family, both layouts).
   For the executable storage-level bitmap model `Z.BitExec` (the functions the `datacorebit` correspondence runs against a
-  real KVNode; every decision expression regenerated in `Gen.Bit`):
+  real KVNode; every decision expression regenerated in `Gen.Bit`, incl. the loop break and the clamp of fix d794a70):
   * `bitcountSpec` — BITCOUNT by point lookups — IS the number of offsets of the byte range whose GETBIT is 1, for the
     whole key and for every start / end (negative, beyond the size, crossing segments, start > end), in EVERY store;
-  * in every well-formed store (`WF`; `C09Bit_wf_reachable`: every store the model's commands reach) the repaired
-    iterator-based BITCOUNT `bitcountFixed` answers exactly that;
-  * `BitCountV2` AS THE CODE IS (`bitcount`) does NOT: whenever it answers a number, that number is the prescribed one PLUS
-    the set bits of every stored segment behind the segment of `end` (`C09Bit_bitcount_overcount`; right iff there is none,
-    `C09Bit_bitcount_right_without_segment_behind`), and it answers no number at all (Go panic, slice bounds) when the first
-    wanted byte of the start segment lies behind that segment's stored length (`C09Bit_bitcount_panics`).
-    Witnesses on reachable stores: `C09Bit_overcount_witness` (SETBIT k 0 1; SETBIT k 8192 1; BITCOUNT k 0 0 = 2, GETBIT
-    shows 1 set bit in byte 0), `C09Bit_panic_witness` (same store, BITCOUNT k 5 1024). The real code shows both
-    (oracle `count-enum-mismatch:bitmap:bitcount` and `panic:bitcount:read` of protocol `datacorebit`; known findings).
+  * `bitcount` — `BitCountV2` as the code is — answers exactly that in every well-formed store (`WF`), i.e. in every store the
+    model's commands reach (`C09Bit_bitcount_eq_enum`, `C09Bit_wf_reachable`, `C09Bit_bitcount_eq_enum_reachable`); the model has
+    no panic outcome;
+  * the size invariant (`SizeOK`) is established by the SETBIT that starts a generation (from size 0) and kept by SETBIT.
+  History: before fix d794a70 `BitCountV2` also counted every stored segment behind the segment of `end` and panicked (slice
+  bounds) on a start segment stored shorter than the first wanted byte; the witnesses of both (SETBIT k 0 1; SETBIT k 8192 1;
+  SETBIT k 9 1; BITCOUNT k 0 0 answered 2; BITCOUNT k 5 1024 panicked) are now regression examples with the right answers
+  (`C09Bit_regression_behind_end`, `C09Bit_regression_short_start_segment`) and corpus lines (corpus/C09/datacorebit-*.txt).
 -/
 import ZanVerif.Data.BitSize
 
@@ -38,52 +37,34 @@ theorem C09Bit_bitcountSpec_eq_enum (pol : Pol) (m : List KV) (now : Int) (table
   unfold enumBits rangeOf
   split <;> rfl
 
-/-- **C09, every well-formed (= reachable) store**: the repaired iterator-based BITCOUNT = the enumeration of GETBIT -/
-theorem C09Bit_bitcountFixed_eq_enum (pol : Pol) {m : List KV} (W : WF m) (now : Int) (table rk : Bytes) (ht : table.length < 65536)
+/-- **C09, every well-formed (= reachable) store**: BITCOUNT as the code computes it (iterator from the start segment, break
+    behind the segment of `end`, clamped cuts) = the number of offsets of the byte range whose GETBIT is 1 — whole key and
+    every start / end; the outcome is always a number -/
+theorem C09Bit_bitcount_eq_enum (pol : Pol) {m : List KV} (W : WF m) (now : Int) (table rk : Bytes) (ht : table.length < 65536)
     (h : Hdr) (ex : Bool) (size : Int) (hm : bmeta pol m now table rk = .mk h ex size true) (start stop : Int) :
-    bitcountFixed pol m now table rk start stop =
+    bitcount pol m now table rk start stop =
       .ok (enumBits pol m now table rk (rangeOf start stop size).1 (rangeOf start stop size).2 : Nat) := by
-  rw [bitcountFixed_eq_spec W pol now table rk ht start stop]
+  rw [bitcount_eq_spec W pol now table rk ht start stop]
   exact C09Bit_bitcountSpec_eq_enum pol m now table rk h ex size hm start stop
 
-/-- **what `BitCountV2` as it is answers**: whenever it answers a number `n`, `n` = the enumeration PLUS the set bits of
-    every stored segment of the bitmap that lies behind the segment of `end` -/
-theorem C09Bit_bitcount_overcount (pol : Pol) {m : List KV} (W : WF m) (now : Int) (table rk : Bytes) (ht : table.length < 65536)
-    (h : Hdr) (ex : Bool) (size : Int) (hm : bmeta pol m now table rk = .mk h ex size true) (start stop : Int) (n : Int)
-    (hle : (rangeOf start stop size).1 ≤ (rangeOf start stop size).2)
-    (hn : bitcount pol m now table rk start stop = .ok n) :
-    n = (enumBits pol m now table rk (rangeOf start stop size).1 (rangeOf start stop size).2 : Nat) +
-      ((((countRange pol m table rk h (rangeOf start stop size).1).filter
-        (fun p => !decide (idxOf p.1 ≤ Gen.bitCountStopI (rangeOf start stop size).2 * Gen.cBitmapSegBytes))).map (fun p => popcount p.2)).sum : Nat) := by
-  obtain ⟨f, hf, hnf⟩ := bitcount_ok_overcount pol m now table rk h ex size hm start stop n hle hn
-  rw [C09Bit_bitcountFixed_eq_enum pol W now table rk ht h ex size hm start stop] at hf
-  injection hf with hf
-  rw [hnf, ← hf]
-  rfl
+/-- the code's BITCOUNT is the prescribed one in every well-formed store, live bitmap or not (a dead one falls back to the
+    string of the same name in both) -/
+theorem C09Bit_bitcount_eq_spec (pol : Pol) {m : List KV} (W : WF m) (now : Int) (table rk : Bytes) (ht : table.length < 65536)
+    (start stop : Int) : bitcount pol m now table rk start stop = bitcountSpec pol m now table rk start stop :=
+  bitcount_eq_spec W pol now table rk ht start stop
 
-/-- … so it is right whenever it answers a number and no stored segment lies behind the segment of `end` -/
-theorem C09Bit_bitcount_right_without_segment_behind (pol : Pol) {m : List KV} (W : WF m) (now : Int) (table rk : Bytes)
-    (ht : table.length < 65536) (h : Hdr) (ex : Bool) (size : Int) (hm : bmeta pol m now table rk = .mk h ex size true)
-    (start stop : Int) (n : Int) (hle : (rangeOf start stop size).1 ≤ (rangeOf start stop size).2)
-    (hn : bitcount pol m now table rk start stop = .ok n)
-    (hnone : ∀ p ∈ countRange pol m table rk h (rangeOf start stop size).1,
-      idxOf p.1 ≤ Gen.bitCountStopI (rangeOf start stop size).2 * Gen.cBitmapSegBytes) :
-    n = (enumBits pol m now table rk (rangeOf start stop size).1 (rangeOf start stop size).2 : Nat) := by
-  have := bitcount_ok_eq_fixed pol m now table rk h ex size hm start stop n hle hn hnone
-  rw [C09Bit_bitcountFixed_eq_enum pol W now table rk ht h ex size hm start stop] at this
-  injection this with this
-  exact this.symm
-
-/-- `BitCountV2` as it is answers NO number (Go panic `slice bounds out of range`) as soon as one stored segment of its
-    iterator range has an inverted cut: `byteStart = start % 1024` behind `min(len(segment), …)` -/
-theorem C09Bit_bitcount_panics (pol : Pol) (m : List KV) (now : Int) (table rk : Bytes) (h : Hdr) (ex : Bool) (size : Int)
-    (hm : bmeta pol m now table rk = .mk h ex size true) (start stop : Int)
-    (hle : (rangeOf start stop size).1 ≤ (rangeOf start stop size).2)
-    (hbad : ∃ p ∈ countRange pol m table rk h (rangeOf start stop size).1,
-      (cutOf (rangeOf start stop size).1 (rangeOf start stop size).2 (idxOf p.1) p.2).1 >
-        (cutOf (rangeOf start stop size).1 (rangeOf start stop size).2 (idxOf p.1) p.2).2) :
-    ∃ q, bitcount pol m now table rk start stop = .panic q :=
-  bitcount_panics pol m now table rk h ex size hm start stop hle hbad
+/-- one iteration of the loop: the clamp `if byteStart > byteEnd { byteStart = byteEnd }` makes the cut of EVERY segment a
+    valid slice (no inverted bounds: the panic of the code before fix d794a70 has no counterpart) -/
+theorem C09Bit_cut_never_inverted (s e idx : Int) (v : Bytes) :
+    (if Gen.bitCountInverted (cutOf s e idx v).1 (cutOf s e idx v).2 then (cutOf s e idx v).2 else (cutOf s e idx v).1) ≤ (cutOf s e idx v).2 ∧
+    (cutOf s e idx v).2 ≤ v.length := by
+  refine ⟨?_, cutOf_end_le s e idx v⟩
+  unfold Gen.bitCountInverted
+  split
+  · exact Nat.le_refl _
+  · rename_i h
+    simp only [decide_eq_true_eq] at h
+    omega
 
 /-- a dead bitmap (absent or expired) without a string under its name counts 0, as the code is and as prescribed -/
 theorem C09Bit_bitcount_dead_zero (pol : Pol) (m : List KV) (now : Int) (table rk : Bytes) (h : Hdr) (ex : Bool) (size : Int)
@@ -91,18 +72,19 @@ theorem C09Bit_bitcount_dead_zero (pol : Pol) (m : List KV) (now : Int) (table r
     bitcount pol m now table rk a b = .ok 0 ∧ bitcountSpec pol m now table rk a b = .ok 0 :=
   bitcount_dead pol m now table rk h ex size hm hstr a b
 
-/-! ### the size invariant and the whole-key BITCOUNT of the code -/
+/-! ### the size invariant -/
 
-/-- **the size invariant is established / kept by SETBIT on the key** (no legacy conversion): if the old size covered the
-    stored segments of the generation SETBIT writes to — vacuous for a fresh generation —, then afterwards the stored size
-    covers every stored segment of the generation a reader sees -/
+/-- **the size invariant is established / kept by SETBIT on the key** (no legacy conversion): if the size SETBIT starts from
+    (`startSize`: the stored size of a live bitmap, 0 for an absent or expired one) covered the stored segments of the
+    generation it writes to — vacuous for a fresh generation —, then afterwards the stored size covers every stored segment of
+    the generation a reader sees -/
 theorem C09Bit_sizeOK_setbit_self (pol : Pol) {m : List KV} (W : WF m) (ts : Int) (table rk : Bytes) (offset : Nat) (on : Int)
     (ht : table.length < 65536) (hts : inI64 ts) (hv : on = 0 ∨ on = 1) (ho : (offset : Int) ≤ 4294967294)
     (h : Hdr) (ex : Bool) (size0 : Int) (ok : Bool) (hm : bmeta pol m ts table rk = .mk h ex size0 ok)
     (hnc : ok = true ∨ get m (strK table rk) = none)
     (hold : ∀ (j : Nat) (v : Bytes), j < 9007199254740992 →
       get m (segK table (vkey pol rk (wHdr pol h ex ts).ver) (Gen.cBitmapSegBytes * (j : Int))) = some v →
-      Gen.cBitmapSegBytes * (j : Int) + v.length ≤ size0) :
+      Gen.cBitmapSegBytes * (j : Int) + v.length ≤ startSize size0 ok) :
     SizeOK pol (setbit pol m ts table rk offset on).1 table rk :=
   SizeOK_setbit_self pol W ts table rk offset on ht hts hv ho h ex size0 ok hm hnc hold
 
@@ -114,24 +96,6 @@ theorem C09Bit_sizeOK_setbit_other (pol : Pol) {m : List KV} (hs : Sorted m) (ts
     (table' rk' : Bytes) (ht' : table'.length < 65536) (hc' : Gen.cTableStartSep ∉ table') (hne : ¬ (table' = table ∧ rk' = rk))
     (S : SizeOK pol m table' rk') : SizeOK pol (setbit pol m ts table rk offset on).1 table' rk' :=
   SizeOK_setbit_other pol hs ts table rk offset on ht hts hv ho h ex size0 ok hm hnc hc table' rk' ht' hc' hne S
-
-/-- **the whole-key BITCOUNT of `BitCountV2` as it is, is right** under the size invariant: `BITCOUNT key` (= 0 … -1) never
-    panics and answers the number of offsets of the whole bitmap whose GETBIT is 1 -/
-theorem C09Bit_bitcount_whole_key_right (pol : Pol) {m : List KV} (W : WF m) (now : Int) (table rk : Bytes) (ht : table.length < 65536)
-    (h : Hdr) (ex : Bool) (size : Int) (hm : bmeta pol m now table rk = .mk h ex size true) (hsz : 1 ≤ size)
-    (S : SizeOK pol m table rk) :
-    bitcount pol m now table rk 0 (-1) = .ok (enumBits pol m now table rk 0 (size - 1) : Nat) := by
-  have hr : rangeOf 0 (-1) size = (0, size - 1) := by
-    unfold rangeOf Gen.getRange
-    refine Prod.ext ?_ ?_ <;> simp only <;> (repeat' split) <;> omega
-  obtain ⟨n, hn⟩ := bitcount_from_zero_ok pol m now table rk h ex size hm 0 (-1) (by
-    have := congrArg Prod.fst hr; exact this)
-  have hov := C09Bit_bitcount_overcount pol W now table rk ht h ex size hm 0 (-1) n (by rw [hr]; simp only; omega) hn
-  rw [hr] at hov
-  simp only at hov
-  rw [behind_last_byte_zero pol W table rk ht now h ex size hm S 0 (by omega) (by omega)] at hov
-  rw [hn, hov]
-  simp
 
 /-! ### the invariant holds in every reachable store -/
 
@@ -192,6 +156,21 @@ theorem C09Bit_aux_seg_not_kv (t v : Bytes) (i : Int) : (segK t v i).head? ≠ s
 theorem C09Bit_aux_meta_not_kv (t k : Bytes) : (metaK t k).head? ≠ some Gen.cKVType := by
   rw [metaK_head]; decide
 
+theorem C09Bit_aux_strSmall_convert {m : List KV} (S : StrSmall m) (t k : Bytes) : StrSmall (convert m t k).1 := by
+  unfold convert
+  split
+  · exact S
+  · simp only
+    split
+    · exact S
+    · apply C09Bit_aux_strSmall_applyW S
+      intro k' v' hkv
+      rcases List.mem_append.mp hkv with hkv | hkv
+      · obtain ⟨c, _, hce⟩ := List.mem_map.mp hkv
+        injection hce with h1 _
+        rw [← h1]; exact C09Bit_aux_seg_not_kv _ _ _
+      · simp at hkv
+
 theorem C09Bit_aux_strSmall_setbit {m : List KV} (S : StrSmall m) (pol : Pol) (ts : Int) (t k : Bytes) (o v : Int) :
     StrSmall (setbit pol m ts t k o v).1 := by
   unfold setbit
@@ -202,35 +181,17 @@ theorem C09Bit_aux_strSmall_setbit {m : List KV} (S : StrSmall m) (pol : Pol) (t
     · split
       · exact S
       · rename_i h ex size0 ok hm
-        split
-        · exact S
-        · rename_i m1 size1 hc
-          have S1 : StrSmall m1 := by
-            by_cases hok : ok = true
-            · rw [if_pos hok] at hc; cases hc; exact S
-            · rw [if_neg hok] at hc
-              unfold convert at hc
-              split at hc
-              · cases hc; exact S
-              · split at hc
-                · cases hc; exact S
-                · simp only at hc
-                  split at hc
-                  · cases hc
-                  · cases hc
-                    apply C09Bit_aux_strSmall_applyW S
-                    intro k' v' hkv
-                    rcases List.mem_append.mp hkv with hkv | hkv
-                    · obtain ⟨c, _, hce⟩ := List.mem_map.mp hkv
-                      injection hce with h1 _
-                      rw [← h1]; exact C09Bit_aux_seg_not_kv _ _ _
-                    · simp at hkv
-          apply C09Bit_aux_strSmall_applyW S1
-          intro k' v' hkv
-          simp only [List.mem_cons, List.mem_nil_iff, or_false] at hkv
-          rcases hkv with hkv | hkv
-          · injection hkv with h1 _; rw [h1]; exact C09Bit_aux_seg_not_kv _ _ _
-          · injection hkv with h1 _; rw [h1]; exact C09Bit_aux_meta_not_kv _ _
+        simp only
+        have S1 : StrSmall (startOf m t k size0 ok).1 := by
+          unfold startOf; split
+          · exact S
+          · exact C09Bit_aux_strSmall_convert S t k
+        apply C09Bit_aux_strSmall_applyW S1
+        intro k' v' hkv
+        simp only [List.mem_cons, List.mem_nil_iff, or_false] at hkv
+        rcases hkv with hkv | hkv
+        · injection hkv with h1 _; rw [h1]; exact C09Bit_aux_seg_not_kv _ _ _
+        · injection hkv with h1 _; rw [h1]; exact C09Bit_aux_meta_not_kv _ _
 
 theorem C09Bit_aux_strSmall_sub {m m' : List KV} (S : StrSmall m) (h : ∀ p ∈ m', p ∈ m ∨ p.1.head? ≠ some Gen.cKVType) : StrSmall m' := by
   intro p hp hh
@@ -317,7 +278,16 @@ theorem C09Bit_wf_reachable (pol : Pol) (cs : List Cmd) (hc : ∀ c ∈ cs, Admi
       exact ih _ W' S' (fun c' hc' => hc c' (List.mem_cons_of_mem _ hc'))
   exact key cs [] WF.nil (fun p hp => by cases hp) hc
 
-/-! ### witnesses and non-vacuity: concrete runs with the real codec (table "t", key "b") -/
+/-- **C09 for every reachable store**: after any sequence of admitted commands from the empty store, BITCOUNT of a live bitmap
+    = the GETBIT enumeration over the byte range, for every start / end -/
+theorem C09Bit_bitcount_eq_enum_reachable (pol : Pol) (cs : List Cmd) (hc : ∀ c ∈ cs, Admitted c) (now : Int) (table rk : Bytes)
+    (ht : table.length < 65536) (h : Hdr) (ex : Bool) (size : Int)
+    (hm : bmeta pol (run pol [] cs) now table rk = .mk h ex size true) (start stop : Int) :
+    bitcount pol (run pol [] cs) now table rk start stop =
+      .ok (enumBits pol (run pol [] cs) now table rk (rangeOf start stop size).1 (rangeOf start stop size).2 : Nat) :=
+  C09Bit_bitcount_eq_enum pol (C09Bit_wf_reachable pol cs hc) now table rk ht h ex size hm start stop
+
+/-! ### regression examples and non-vacuity: concrete runs with the real codec (table "t", key "b") -/
 section Example
 def wT : Bytes := [116]
 def wK : Bytes := [98]
@@ -333,46 +303,37 @@ set_option maxRecDepth 100000 in
 theorem C09Bit_aux_wS_meta : bmeta .compact (wS .compact) (wTs + 3) wT wK = .mk ⟨0, wTs, some (metaUser 1025 (wTs + 2))⟩ false 1025 true := by decide
 
 set_option maxRecDepth 100000 in
-/-- **witness (C09 violated by `BitCountV2` as it is, overcount)**: after SETBIT b 0 1, SETBIT b 8192 1, SETBIT b 9 1 the
-    code answers `BITCOUNT b 0 0 = 2` although GETBIT is 1 at exactly ONE offset of byte 0 (offset 0): it also counts the
-    segment that holds offset 8192. The prescribed and the repaired BITCOUNT answer 1; both layouts. -/
-theorem C09Bit_overcount_witness (pol : Pol) :
-    bitcount pol (wS pol) (wTs + 3) wT wK 0 0 = .ok 2 ∧
-    bitcountSpec pol (wS pol) (wTs + 3) wT wK 0 0 = .ok 1 ∧ bitcountFixed pol (wS pol) (wTs + 3) wT wK 0 0 = .ok 1 ∧
+/-- **regression (defect repaired by d794a70, segments behind `end`)**: after SETBIT b 0 1, SETBIT b 8192 1, SETBIT b 9 1 the code
+    answered `BITCOUNT b 0 0 = 2`; now 1 = the one offset of byte 0 whose GETBIT is 1; both layouts -/
+theorem C09Bit_regression_behind_end (pol : Pol) :
+    bitcount pol (wS pol) (wTs + 3) wT wK 0 0 = .ok 1 ∧ bitcountSpec pol (wS pol) (wTs + 3) wT wK 0 0 = .ok 1 ∧
     (List.range 8).map (fun o => getbit pol (wS pol) (wTs + 3) wT wK (o : Nat)) = [.ok 1, .ok 0, .ok 0, .ok 0, .ok 0, .ok 0, .ok 0, .ok 0] ∧
-    bitcount pol (wS pol) (wTs + 3) wT wK 0 (-1) = .ok 3 ∧ bitcountSpec pol (wS pol) (wTs + 3) wT wK 0 (-1) = .ok 3 := by
+    bitcount pol (wS pol) (wTs + 3) wT wK 0 (-1) = .ok 3 ∧ bitcount pol (wS pol) (wTs + 3) wT wK 1024 1024 = .ok 1 := by
   cases pol <;> decide
 
 set_option maxRecDepth 100000 in
-/-- **witness (panic)**: on the same store `BITCOUNT b 5 1024` panics in the code (`bmv[5:2]`: segment 0 is 2 bytes long,
-    the range starts at its byte 5); prescribed answer: 1 (offset 8192) -/
-theorem C09Bit_panic_witness (pol : Pol) :
-    bitcount pol (wS pol) (wTs + 3) wT wK 5 1024 = .panic (.sliceBounds 5 2) ∧
-    bitcountSpec pol (wS pol) (wTs + 3) wT wK 5 1024 = .ok 1 ∧ bitcountFixed pol (wS pol) (wTs + 3) wT wK 5 1024 = .ok 1 := by
+/-- **regression (defect repaired by d794a70, short start segment)**: on the same store `BITCOUNT b 5 1024` panicked
+    (`bmv[5:2]`: segment 0 is 2 bytes long); now 1 (offset 8192), `BITCOUNT b 1023 1024` likewise -/
+theorem C09Bit_regression_short_start_segment (pol : Pol) :
+    bitcount pol (wS pol) (wTs + 3) wT wK 5 1024 = .ok 1 ∧ bitcount pol (wS pol) (wTs + 3) wT wK 1023 1024 = .ok 1 ∧
+    bitcount pol (wS pol) (wTs + 3) wT wK 5 6 = .ok 0 ∧ bitcountSpec pol (wS pol) (wTs + 3) wT wK 5 1024 = .ok 1 := by
   cases pol <;> decide
 
 set_option maxRecDepth 100000 in
-/-- the hypotheses of `C09Bit_bitcountFixed_eq_enum` / `C09Bit_bitcount_overcount` hold on the reachable store above -/
-example : bitcountFixed .compact (wS .compact) (wTs + 3) wT wK 0 0 =
+/-- the hypotheses of `C09Bit_bitcount_eq_enum` hold on the reachable store above; two of its instances -/
+example : bitcount .compact (wS .compact) (wTs + 3) wT wK 0 0 =
     .ok (enumBits .compact (wS .compact) (wTs + 3) wT wK (rangeOf 0 0 1025).1 (rangeOf 0 0 1025).2 : Nat) :=
-  C09Bit_bitcountFixed_eq_enum .compact (C09Bit_aux_wS_wf .compact) (wTs + 3) wT wK (by decide) _ _ _ C09Bit_aux_wS_meta 0 0
+  C09Bit_bitcount_eq_enum .compact (C09Bit_aux_wS_wf .compact) (wTs + 3) wT wK (by decide) _ _ _ C09Bit_aux_wS_meta 0 0
 
 set_option maxRecDepth 100000 in
-example : ((2 : Int)) = (enumBits .compact (wS .compact) (wTs + 3) wT wK (rangeOf 0 0 1025).1 (rangeOf 0 0 1025).2 : Nat) +
-      ((((countRange .compact (wS .compact) wT wK ⟨0, wTs, some (metaUser 1025 (wTs + 2))⟩ (rangeOf 0 0 1025).1).filter
-        (fun p => !decide (idxOf p.1 ≤ Gen.bitCountStopI (rangeOf 0 0 1025).2 * Gen.cBitmapSegBytes))).map (fun p => popcount p.2)).sum : Nat) :=
-  C09Bit_bitcount_overcount .compact (C09Bit_aux_wS_wf .compact) (wTs + 3) wT wK (by decide) _ _ _ C09Bit_aux_wS_meta 0 0 2 (by decide)
-    (C09Bit_overcount_witness .compact).1
+example : bitcount .compact (run .compact [] wCmds) (wTs + 3) wT wK 5 1024 =
+    .ok (enumBits .compact (run .compact [] wCmds) (wTs + 3) wT wK (rangeOf 5 1024 1025).1 (rangeOf 5 1024 1025).2 : Nat) :=
+  C09Bit_bitcount_eq_enum_reachable .compact wCmds
+    (by intro c hc; simp [wCmds] at hc; rcases hc with rfl | rfl | rfl <;> (show wT.length < 65536; decide))
+    (wTs + 3) wT wK (by decide) _ _ _ C09Bit_aux_wS_meta 5 1024
 
-set_option maxRecDepth 100000 in
-example : ∃ q, bitcount .compact (wS .compact) (wTs + 3) wT wK 5 1024 = .panic q :=
-  C09Bit_bitcount_panics .compact _ _ wT wK _ _ _ C09Bit_aux_wS_meta 5 1024 (by decide) (by
-    refine ⟨(segK wT (vkey .compact wK wTs) 0, [128, 64]), by decide, by decide⟩)
-
-set_option maxRecDepth 100000 in
-example : (3 : Int) = (enumBits .compact (wS .compact) (wTs + 3) wT wK (rangeOf 0 (-1) 1025).1 (rangeOf 0 (-1) 1025).2 : Nat) :=
-  C09Bit_bitcount_right_without_segment_behind .compact (C09Bit_aux_wS_wf .compact) (wTs + 3) wT wK (by decide) _ _ _
-    C09Bit_aux_wS_meta 0 (-1) 3 (by decide) (C09Bit_overcount_witness .compact).2.2.2.2.1 (by decide)
+example : (if Gen.bitCountInverted (cutOf 5 1024 0 [128, 64]).1 (cutOf 5 1024 0 [128, 64]).2 then (cutOf 5 1024 0 [128, 64]).2
+    else (cutOf 5 1024 0 [128, 64]).1) = 2 ∧ (cutOf 5 1024 0 [128, 64]) = (5, 2) := by decide
 
 set_option maxRecDepth 100000 in
 theorem C09Bit_aux_wS_sizeOK : SizeOK .compact (wS .compact) wT wK := by
@@ -396,12 +357,6 @@ theorem C09Bit_aux_wS_sizeOK : SizeOK .compact (wS .compact) wT wK := by
       ⟨0, wTs, some (metaUser 1025 (wTs + 1))⟩ false 1025 true (by decide) (Or.inl rfl) ?_
   intro j v hj hg
   exact S2 (wTs + 2) _ _ _ (show bmeta .compact _ (wTs + 2) wT wK = .mk ⟨0, wTs, some (metaUser 1025 (wTs + 1))⟩ false 1025 true by decide) j v hj hg
-
-set_option maxRecDepth 100000 in
-/-- the whole-key BITCOUNT of the code on the reachable store above: 3 = the enumeration (`C09Bit_bitcount_whole_key_right`) -/
-example : bitcount .compact (wS .compact) (wTs + 3) wT wK 0 (-1) = .ok (enumBits .compact (wS .compact) (wTs + 3) wT wK 0 (1025 - 1) : Nat) :=
-  C09Bit_bitcount_whole_key_right .compact (C09Bit_aux_wS_wf .compact) (wTs + 3) wT wK (by decide) _ _ _ C09Bit_aux_wS_meta (by decide)
-    C09Bit_aux_wS_sizeOK
 
 example : WF (run .local [] (wCmds ++ [.strPut wT wK [1, 2, 3], .setbit (wTs + 9) wT [99] 5 1, .bitclear (wTs + 10) wT wK])) :=
   C09Bit_wf_reachable .local _ (by
